@@ -240,6 +240,7 @@ def run(ctx):
             ctx.validated()
     native_choice(ctx, rng)
     models(ctx, rng)
+    narrow_window(ctx, rng)
     irregular_native_binning(ctx)
 
 
@@ -343,6 +344,76 @@ def size_matched_window(rng, grid, m):
             if len(w) >= 2 and len(clip_native_to_wngrid(grid, w)) == m:
                 return w
     return None
+
+
+def narrow_window(ctx, rng):
+    """every run: a band that is opaque at all but two of 3000 native wavenumbers (optical depth 30 in the calibrated layer,
+    3.5 in the window), a second source with optical depth ~1 there, and a request restricted to a few points around the
+    window. The licensed cut-off is per layer 'at every wavenumber', so it must not depend on how many opaque points
+    surround the window: the restricted run and the full run agree at the points they share."""
+    for k in range(ctx.n(2, 10)):
+        spec = tmodel.gen_spec(rng, ngas=1, contribs=['Absorption', 'CIA'], nlayers=rng.choice([4, 5, 6]), nwn=8)
+        g = spec['gases'][0]
+        if spec['mix'][g] <= 0:
+            spec['mix'][g] = 1e-4
+        spec.pop('mixarr', None)
+        nw = 3000
+        wn = np.linspace(rng.uniform(300, 2000), rng.uniform(20000, 30000), nw)
+        o = spec['opac'][g]
+        s0 = float(np.median(np.array(o['tab'])[np.array(o['tab']) > 0])) if np.any(np.array(o['tab']) > 0) else 1e-22
+        c0 = float(np.median(np.abs(np.array(spec['cia']['xsec'])))) or 1e-45
+        shape = np.array(o['tab']).shape[:-1]
+        spec['wn'] = wn
+        spec['cia'] = dict(spec['cia'], extra=[])
+        lstar = spec['nlayers'] // 2
+        ta = tc = None
+        for _ in range(8):          # calibrate the two constant cross-sections on the layer lstar
+            spec['opac'][g] = dict(o, wn=wn, tab=np.full(shape + (nw,), s0))
+            spec['cia']['xsec'] = np.full(nw, c0)
+            m = tmodel.build(spec)
+            with np.errstate(all='ignore'):
+                _, cd = m.model_contrib()
+            tr = {type(c).__name__: np.array(cd[c.name][1])[lstar, 0] for c in m.contribution_list}
+            ta = -math.log(tr['AbsorptionContribution']) if 0 < tr['AbsorptionContribution'] < 1 else None
+            tc = -math.log(tr['CIAContribution']) if 0 < tr['CIAContribution'] < 1 else None
+            if ta is not None and tc is not None and 1e-6 < ta < 500 and 1e-6 < tc < 500:
+                break
+            if ta is None or not (1e-6 < ta < 500):
+                s0 *= 1e-3 if tr['AbsorptionContribution'] <= 0 or (ta or 0) >= 500 else 1e3
+            if tc is None or not (1e-6 < tc < 500):
+                c0 *= 1e-3 if tr['CIAContribution'] <= 0 or (tc or 0) >= 500 else 1e3
+        else:
+            ctx.count('narrow window: calibration failed')
+            continue
+        j = rng.randrange(100, nw - 100)
+        sig = np.full(nw, s0 * 30.0 / ta)
+        sig[j:j + 2] = s0 * 3.5 / ta
+        spec['opac'][g] = dict(o, wn=wn, tab=np.broadcast_to(sig, shape + (nw,)).copy())
+        spec['cia']['xsec'] = np.full(nw, c0 * 1.0 / tc)
+        rp = dict(kind='narrow-window', spec=spec, window=[j, j + 2])
+        model = tmodel.build(spec)
+        with np.errstate(all='ignore'):
+            full = model.model()
+            part = model.model(wngrid=wn[j - 3:j + 5], cutoff_grid=True)
+        grid = np.array(full[0])
+        g2 = np.array(part[0])
+        idx = np.searchsorted(grid, g2)
+        ctx.case(('narrow-window', k, j, len(g2)), nontrivial=True)
+        ctx.count('narrow transparent window in an opaque band (3000 points)')
+        if not (np.all(idx < len(grid)) and np.array_equal(grid[np.minimum(idx, len(grid) - 1)], g2)):
+            ctx.violation('restricted-grid', 'restricted grid is not a sub-set of the native grid', replay=rp)
+            continue
+        Rp, Rs = model.planet.fullRadius, model.star.radius
+        slack = math.exp(-10) * float(np.sum(2 * (Rp + model.altitudeProfile) * model.deltaz)) / Rs ** 2
+        d = np.abs(np.array(part[1]) - np.array(full[1])[idx])
+        if np.any(d > slack + 1e-9 * np.abs(np.array(full[1])[idx])):
+            q = int(np.argmax(d))
+            ctx.violation('restriction', 'value at wavenumber %r (a transparent window of two points in a band of %d opaque '
+                          'ones) differs between the restricted run (%r) and the full run (%r) by more than the cut-off '
+                          'licence %.3g' % (g2[q], nw, part[1][q], np.array(full[1])[idx][q], slack), replay=rp)
+        else:
+            ctx.validated()
+    tmodel.reset_caches()
 
 
 def models(ctx, rng):
